@@ -1645,11 +1645,6 @@ class _rrulestr(object):
             forceset = True
             unfold = True
 
-        TZID_NAMES = dict(map(
-            lambda x: (x.upper(), x),
-            re.findall('TZID=(?P<name>[^:]+):', s)
-        ))
-        s = s.upper()
         if not s.strip():
             raise ValueError("empty string")
         if unfold:
@@ -1666,6 +1661,13 @@ class _rrulestr(object):
                     i += 1
         else:
             lines = s.split()
+        # TZID values keep their case; look for them in the unfolded lines
+        TZID_NAMES = dict(map(
+            lambda x: (x.upper(), x),
+            re.findall('TZID=(?P<name>[^:]+):', '\n'.join(lines))
+        ))
+        lines = [line.upper() for line in lines]
+        s = s.upper()
         if (not forceset and len(lines) == 1 and (s.find(':') == -1 or
                                                   s.startswith('RRULE:'))):
             return self._parse_rfc_rrule(lines[0], cache=cache,
